@@ -8,6 +8,7 @@ import (
 	"go/constant"
 	"go/token"
 	"go/types"
+	"os"
 	"regexp"
 	"sort"
 	"strings"
@@ -830,11 +831,14 @@ func (w *World) decodeRLPTable(r *Report) map[int64]string {
 	}
 	// evaluated per type constant on the paths of DecodeRLP, under "the wire payload
 	// is not empty" (an empty one leaves the payload nil for every type)
-	table := w.payloadTableOf(fn, regexp.MustCompile(`^\(int32\(.*\.Type\) == (-?\d+)\)$`), AR(`^len\(.*\.Payload\)$`, ">", "^0$"))
+	table := w.payloadTableOf(fn, regexp.MustCompile(`^\(int32\(.*\.Type\) == (-?\d+)\)$`), AR(`^len\(.*\.Payload\)$`, ">", "^0$"), AR(`\.Payload$`, "!=", "^nil$"))
 	for k, v := range table {
 		if k == 0 || strings.HasPrefix(v, "!") || strings.HasPrefix(v, "?") || v == "" {
 			delete(table, k)
 		}
+	}
+	if os.Getenv("RIGOCHECK_DEBUG") == "s5" {
+		fmt.Fprintln(os.Stderr, "S5 table", table, w.payloadTableOf(fn, regexp.MustCompile(`^\(int32\(.*\.Type\) == (-?\d+)\)$`), AR(`^len\(.*\.Payload\)$`, ">", "^0$")))
 	}
 	if len(table) < 6 {
 		r.Undecided("S-5", "DecodeRLP:table", fmt.Sprintf("only %d payload allocations recognised in Trx.DecodeRLP", len(table)))
